@@ -198,3 +198,64 @@ Definition mgr_case (id : Z) (ops : list mop) (obs : list (list (string * string
                m_spec := true; m_first_spec := -1; m_first_agree := -1 |} in
   let a := fold_left mgr_step (combine ops obs) a0 in
   [id; b2z (m_agree a); b2z (m_spec a); b2z (negb (Nat.eqb (List.length ops) 0)); 3; 0; m_first_spec a; m_first_agree a].
+
+(* ---------- namepair family: the real naming functions on two identities ---------- *)
+
+(* S (independent of the model functions' output): on underscore- and slash-free components, equal
+   VirtualServer / TransportServer file names and equal keys mean equal identities, equal Ingress file names
+   mean equal ns-name concatenations (the known limit of that scheme, F08), and for each identity the name it
+   is written under is the name it is deleted under.  The outputs are: ing, ing_key, vs, vs_key, ts, ts_key, key. *)
+Definition namepair_case (id : Z) (ns1 n1 ns2 n2 : string) (oa ob : list string) : list Z :=
+  let model (ns n : string) :=
+    let key := ns_name_key ns n in
+    [ingress_file ns n; key_to_file key; vs_file ns n; vs_file_from_key key; ts_file ns n; ts_file_from_key key; key] in
+  let agree := list_eqb String.eqb oa (model ns1 n1) && list_eqb String.eqb ob (model ns2 n2) in
+  let clean (s : string) := negb (has_char "/"%char s) && negb (has_char "_"%char s) in
+  let same := String.eqb ns1 ns2 && String.eqb n1 n2 in
+  let samecat := String.eqb (ns1 ++ "-" ++ n1) (ns2 ++ "-" ++ n2) in
+  let nth_s (l : list string) (i : nat) := nth i l EmptyString in
+  let inj (i : nat) (ok : bool) := negb (String.eqb (nth_s oa i) (nth_s ob i)) || ok in
+  let own (l : list string) := String.eqb (nth_s l 0%nat) (nth_s l 1%nat) && String.eqb (nth_s l 2%nat) (nth_s l 3%nat) && String.eqb (nth_s l 4%nat) (nth_s l 5%nat) in
+  let spec := if clean ns1 && clean n1 && clean ns2 && clean n2
+              then Nat.eqb (List.length oa) 7%nat && Nat.eqb (List.length ob) 7%nat &&
+                   inj 0%nat samecat && inj 1%nat samecat && inj 2%nat same && inj 3%nat same && inj 4%nat same && inj 5%nat same && inj 6%nat same &&
+                   own oa && own ob
+              else true in
+  [id; b2z agree; b2z spec; b2z (negb same); 4; 0; -1; -1].
+
+(* ---------- nsl family: namespace life cycle through the real controller ---------- *)
+
+Definition served_of (adds : list addop) : served := fold_left (fun s a => aset (rid_of a) (info_of a) s) adds [].
+
+Definition is_drain (e : nevent) : bool := match e with NDrain => true | _ => false end.
+
+Record nacc := { na_st : nstate; na_obs : list (list addop * view); na_k : Z; na_agree : bool; na_spec : bool;
+                 na_first_spec : Z; na_first_agree : Z; na_nontrivial : bool }.
+
+(* at every drain: X = the listing is the image of what the model says is configured (and the watched
+   namespaces agree); S = the listing is the image of what the cluster demands (given by the harness) *)
+Definition nsl_step (a : nacc) (e : nevent) : nacc :=
+  let st' := nstep e (na_st a) in
+  if is_drain e then
+    match na_obs a with
+    | (expect, o) :: rest =>
+        let ag := spec_ok (v_confd o) (v_stream o) (v_hosts o) (served_of (map addop_of (n_cfg st'))) &&
+                  list_eqb String.eqb (v_ings o) (n_watched st') in
+        let sp := spec_ok (v_confd o) (v_stream o) (v_hosts o) (served_of expect) in
+        {| na_st := st'; na_obs := rest; na_k := na_k a + 1; na_agree := na_agree a && ag; na_spec := na_spec a && sp;
+           na_first_spec := if negb sp && (na_first_spec a <? 0) then na_k a else na_first_spec a;
+           na_first_agree := if negb ag && (na_first_agree a <? 0) then na_k a else na_first_agree a;
+           na_nontrivial := na_nontrivial a || negb (match v_confd o, v_stream o with [], [] => true | _, _ => false end) |}
+    | [] => {| na_st := st'; na_obs := []; na_k := na_k a + 1; na_agree := false; na_spec := na_spec a;
+               na_first_spec := na_first_spec a; na_first_agree := na_first_agree a; na_nontrivial := na_nontrivial a |}
+    end
+  else {| na_st := st'; na_obs := na_obs a; na_k := na_k a; na_agree := na_agree a; na_spec := na_spec a;
+          na_first_spec := na_first_spec a; na_first_agree := na_first_agree a; na_nontrivial := na_nontrivial a |}.
+
+(* obs: per drain (expected served objects, view); the view's v_ings carries the sorted watched namespaces *)
+Definition nsl_case (id : Z) (nss : list string) (evs : list nevent) (obs : list (list addop * view)) : list Z :=
+  let a0 := {| na_st := nstate0 nss; na_obs := obs; na_k := 0; na_agree := true; na_spec := true;
+               na_first_spec := -1; na_first_agree := -1; na_nontrivial := false |} in
+  let a := fold_left nsl_step evs a0 in
+  [id; b2z (na_agree a && match na_obs a with [] => true | _ => false end); b2z (na_spec a); b2z (na_nontrivial a); 5; 0;
+   na_first_spec a; na_first_agree a].
